@@ -21,6 +21,7 @@ var rec = vh.NewRecorder("C05", "lockstep-streaming",
 		"Content-Length framed, produced in lock-step: the scripted backend emits chunk i+1 only after the fake proxy has observed every "+
 		"byte of chunk i in the agent's upload (decoded incrementally); a chunk not observed within 5s while the producer is idle, which "+
 		"turns up after the producer is released, is a confirmed violation; the agent runs in one of five configurations (default, session tracking, shim, banner, all); non-trivial = at least 2 chunks; distinct = SHA-256 of the case"+
+		" One case in eight produces 2-48 such responses at the same time (each backend handler waits after its first chunk until the proxy has seen the first chunk of all of them)."+
 		" Later additions: five agent configurations (default, session tracking, websocket shim, banner, all) and text/html as well as octet-stream bodies.")
 
 func TestMain(m *testing.M) { vh.Main(m, rec) }
@@ -31,6 +32,33 @@ type Case struct {
 	Framing  string `json:"framing"`        // chunked | cl
 	Config   string `json:"agent_config"`   // default | sessions | shim | banner | all
 	HTML     bool   `json:"html,omitempty"` // the response is an HTML document (no <head> in it)
+	// Concurrent > 1: that many responses of this shape are produced at the same time; every backend handler waits
+	// after its first chunk until the proxy has observed the first chunk of all of them (responses that overlap in time)
+	Concurrent int `json:"concurrent,omitempty"`
+}
+
+// barrier: all n streams have had their first chunk observed by the proxy (or one of them has given up waiting).
+type barrier struct {
+	mu      sync.Mutex
+	n, here int
+	open    chan struct{}
+}
+
+func (b *barrier) arrive(giveUp bool) {
+	b.mu.Lock()
+	b.here++
+	if b.here == b.n || giveUp {
+		select {
+		case <-b.open:
+		default:
+			close(b.open)
+		}
+	}
+	b.mu.Unlock()
+	select {
+	case <-b.open:
+	case <-time.After(3 * stallBound):
+	}
 }
 
 func genCase(t *rapid.T) Case {
@@ -53,6 +81,20 @@ func genCase(t *rapid.T) Case {
 	c.Framing = rapid.SampledFrom([]string{"chunked", "chunked", "cl"}).Draw(t, "framing")
 	c.Config = rapid.SampledFrom([]string{"default", "default", "sessions", "shim", "banner", "all"}).Draw(t, "config")
 	c.HTML = rapid.IntRange(0, 2).Draw(t, "html") == 0
+	if rapid.IntRange(0, 7).Draw(t, "conc") == 0 {
+		c.Concurrent = rapid.SampledFrom([]int{2, 8, 17, 20, 33, 48}).Draw(t, "concurrent")
+		if len(c.Chunks) > 4 {
+			c.Chunks = c.Chunks[:4]
+		}
+		if len(c.Chunks) < 2 {
+			c.Chunks = append(c.Chunks, 100)
+		}
+		for i := range c.Chunks {
+			if c.Chunks[i] > 32768 {
+				c.Chunks[i] = 32768
+			}
+		}
+	}
 	return c
 }
 
@@ -201,6 +243,38 @@ func closeRig() {
 const stallBound = 5 * time.Second
 
 func runCase(t vh.TB, c *Case) vh.Outcome {
+	if c.Concurrent <= 1 {
+		return runOne(t, c, nil)
+	}
+	getRig(t, c.Config)
+	bar := &barrier{n: c.Concurrent, open: make(chan struct{})}
+	outs := make([]vh.Outcome, c.Concurrent)
+	var wg sync.WaitGroup
+	for i := range outs {
+		i := i
+		wg.Add(1)
+		go func() {
+			defer wg.Done()
+			outs[i] = runOne(t, c, bar)
+		}()
+	}
+	wg.Wait()
+	o := outs[0]
+	o.Classes = append(o.Classes, fmt.Sprintf("concurrent-responses-%d", c.Concurrent))
+	for _, x := range outs {
+		if x.Err != nil {
+			o.Err = fmt.Errorf("%d responses produced at the same time: %v", c.Concurrent, x.Err)
+			o.TimedOut = x.TimedOut
+			break
+		}
+		if x.Inconclusive != "" {
+			o.Inconclusive = x.Inconclusive
+		}
+	}
+	return o
+}
+
+func runOne(t vh.TB, c *Case, bar *barrier) vh.Outcome {
 	r := getRig(t, c.Config)
 	o := vh.Outcome{NonTrivial: len(c.Chunks) >= 2}
 	o.Classes = append(o.Classes, "agent-config-"+c.Config)
@@ -270,6 +344,9 @@ func runCase(t vh.TB, c *Case) vh.Outcome {
 					stalledAt = i
 					stallSeen = mon.seen.Load()
 				}
+			}
+			if bar != nil && i == 0 {
+				bar.arrive(stalledAt >= 0)
 			}
 			if p := c.PausesMs[i%len(c.PausesMs)]; p > 0 {
 				time.Sleep(time.Duration(p) * time.Millisecond)
